@@ -247,6 +247,28 @@ def gen_circuit_spec(rng, cfg):
     return spec
 
 
+def variant_spec(rng, spec):
+    spec = [dict(item) for item in spec]
+    idx = [k for k, it in enumerate(spec) if it["g"] in ("scalar", "Rx", "Rz", "CRz", "Ket")]
+    if not idx:
+        return spec + [{"g": "scalar", "s": rng.choice(SCALARS), "at": 0}]
+    k = rng.choice(idx)
+    it = spec[k]
+    if it["g"] == "scalar":
+        s = it["s"]
+        if s[0] == "scalar" and not s[2]:
+            it["s"] = ["mixed", s[1]]            # same number, the Born rule already applied
+        elif s[0] == "mixed":
+            it["s"] = ["scalar", s[1], 0.0]
+        else:
+            it["s"] = rng.choice(SCALARS)
+    elif it["g"] == "Ket":
+        it["bits"] = [1 - it["bits"][0]] + list(it["bits"][1:])
+    else:
+        it["phase"] = rng.choice([p for p in PHASES if p != it["phase"]])
+    return spec
+
+
 def n_out_bits(c):
     return len(c.init_and_discard().cod)
 
@@ -284,11 +306,8 @@ class World(BaseWorld):
         W.MON.raise_on_fire = False
         self.slots = {}
         self.sim_time = 0.0
-        if not _SELFCHECK:
-            import random
-            if not tksim.selfcheck(random.Random(1), 12):
-                raise HarnessError("M3 disagrees with pytket's own statevector")
-            _SELFCHECK.append(True)
+        self.result_cache = {}
+        prepare()
 
     def vio(self, what, msg, **details):
         return Violation("%s.%s" % (self.prop, what), msg, details)
@@ -421,6 +440,10 @@ class World(BaseWorld):
         circuits = [s["real"] for s in live]
         refs = [self._local(s) for s in live]
         params = dict(op.get("params", {}))
+        if params.get("normalize") is False:
+            # raw frequencies were asked for: exact frequencies are n_shots times the probabilities
+            refs = [r * params["n_shots"] for r in refs]
+            self.note("probe_normalize_false")
         if op.get("compilation"):
             params["compilation"] = make_pass(op["compilation"])
         plan = dict(op["plan"])
@@ -434,7 +457,7 @@ class World(BaseWorld):
                 return [got] if len(circuits) == 1 else list(got)
             raise HarnessError(how)
 
-        be = tksim.SimBackend(plan)
+        be = tksim.SimBackend(plan, self.result_cache)
         failed = False
         try:
             got = call(be)
@@ -454,7 +477,7 @@ class World(BaseWorld):
         finally:
             self.counters.update(be.stats)
             self.sim_time += be.now
-        if op.get("compilation") == "failing" and not failed:
+        if op.get("compilation") in ("failing", "mutate_then_fail") and not failed:
             raise self.vio("failure-swallowed", "the compilation pass raised but %s returned a value" % how)
         if plan.get("fail_at") and not failed and be.calls >= plan["fail_at"]:
             raise self.vio("failure-swallowed", "the backend raised at call %d but %s returned a value"
@@ -464,7 +487,7 @@ class World(BaseWorld):
             # circuits without the fault must give the fault-free answer
             self.note("F4p_retry")
             plan = dict(plan, fail_at=None)
-            be = tksim.SimBackend(plan)
+            be = tksim.SimBackend(plan, self.result_cache)
             try:
                 got = call(be)
             except Exception as err:
@@ -528,7 +551,9 @@ class World(BaseWorld):
         from discopy.quantum.circuit import Sum
         total = Sum(circuits, circuits[0].dom, circuits[0].cod)
         ref = sum(self._local(s) for s in live)
-        be = tksim.SimBackend(dict(op["plan"]))
+        if op.get("params", {}).get("normalize") is False:
+            ref = ref * op["params"]["n_shots"]
+        be = tksim.SimBackend(dict(op["plan"]), self.result_cache)
         try:
             got = total.eval(backend=be, **op.get("params", {}))
         except NotImplementedError:
@@ -546,7 +571,7 @@ class World(BaseWorld):
             arr = arr.reshape(ref.shape)
         self.case("sum", tuple(s["repr"] for s in live))
         if op.get("also_counts"):
-            be2 = tksim.SimBackend(dict(op["plan"], fail_at=None))
+            be2 = tksim.SimBackend(dict(op["plan"], fail_at=None), self.result_cache)
             try:
                 counts = total.get_counts(backend=be2, **op.get("params", {}))
             except NotImplementedError:
@@ -571,6 +596,16 @@ class World(BaseWorld):
 _SELFCHECK = []
 
 
+def prepare():
+    """Validate M3 against pytket's own statevector once per (pristine) process;
+    touches pytket and numpy only, never discopy."""
+    if not _SELFCHECK:
+        import random
+        if not tksim.selfcheck(random.Random(1), 12):
+            raise HarnessError("M3 disagrees with pytket's own statevector")
+        _SELFCHECK.append(True)
+
+
 class CompilationFailure(RuntimeError):
     """Injected callback failure (fault F3)."""
 
@@ -584,6 +619,11 @@ class _Pass:
             return False
         if self.kind == "failing":
             raise CompilationFailure("injected failure of the compilation pass")
+        if self.kind == "mutate_then_fail":
+            if circuit.n_qubits and len(circuit.bits):
+                circuit.X(0)          # the pass got half-way through rewriting the circuit ...
+                circuit.Measure(0, 0)
+            raise CompilationFailure("injected failure of the compilation pass after it changed the circuit")
         if self.kind == "remove_redundancies":
             from pytket.passes import RemoveRedundancies
             return RemoveRedundancies().apply(circuit)
@@ -617,6 +657,7 @@ class Driver:
             "numpy_keys": [int(peer.random() < 0.3) for _ in range(5)],
             "key_perm": [peer.getrandbits(16) for _ in range(8)] if peer.random() < 0.7 else [],
             "int_counts": peer.random() < 0.4,
+            "cache_results": peer.random() < 0.4,
             "fail_at": None,
         }
         if fault.random() < self.cfg["p_fail"]:
@@ -629,7 +670,13 @@ class Driver:
         names = sorted(world.slots)
         if not names or (len(names) < 4 and sched.random() < 0.35):
             self.n += 1
-            return {"op": "new", "slot": "c%d" % (self.n - 1), "spec": gen_circuit_spec(gen, cfg)}
+            if names and gen.random() < 0.3:
+                # a sibling of an existing circuit that differs in one detail only: batches then
+                # contain near-duplicates (same shape, another scalar kind, phase or basis state)
+                spec = variant_spec(gen, world.slots[gen.choice(names)]["spec"])
+            else:
+                spec = gen_circuit_spec(gen, cfg)
+            return {"op": "new", "slot": "c%d" % (self.n - 1), "spec": spec}
         r = sched.random()
         if r < cfg["p_import"] * 0.5:
             return {"op": "import", "tk": tksim.gen_tk_spec(gen)}
@@ -643,9 +690,12 @@ class Driver:
         batch = sched.randint(1, min(cfg["batch_max"], len(names)))
         srcs = [src] + [sched.choice(names) for _ in range(batch - 1)]
         params = {"n_shots": sched.choice([1, 64, 1024, 4096]), "seed": sched.choice([None, 7])}
+        if sched.random() < 0.2:
+            params["normalize"] = False
         op = {"srcs": srcs, "plan": self.plan(batch), "params": params}
         if sched.random() < 0.25:
-            op["compilation"] = sched.choice(["identity", "remove_redundancies", "commute", "failing"])
+            op["compilation"] = sched.choice(["identity", "remove_redundancies", "commute", "failing",
+                                              "mutate_then_fail"])
         if r < 0.72:
             op["op"] = "eval"
         elif r < 0.9:
